@@ -97,11 +97,18 @@ class State:
     def alloc(self):
         return self.heap["alloc"]
 
-    def new_ref(self, owned=True):
+    def new_ref(self, owned=True, kind="obj"):
         a = self.heap["alloc"]
         self.heap["alloc"] = a + 1
+        if "g:owner" in self.heap:
+            # ghost ownership tag: a freshly allocated object belongs to nobody (contexts tag their containers later)
+            self.heap["g:owner"] = z3.Store(self.heap["g:owner"], a, con("own:nobody"))
         if owned:
             self.owned.append(a)
+            self.loopvars = dict(self.loopvars)
+            self.loopvars.setdefault("owned_kind", {})
+            self.loopvars["owned_kind"] = dict(self.loopvars["owned_kind"])
+            self.loopvars["owned_kind"][a.get_id()] = kind
         return a
 
     # dict
@@ -135,7 +142,7 @@ class State:
         self.mark_written(a)
 
     def new_dict(self, has=None, get=None, ln=None):
-        a = self.new_ref()
+        a = self.new_ref(kind="dict")
         self.heap["d_has"] = z3.Store(self.heap["d_has"], a, has if has is not None else z3.K(Val, z3.BoolVal(False)))
         if get is not None:
             self.heap["d_get"] = z3.Store(self.heap["d_get"], a, get)
@@ -151,7 +158,7 @@ class State:
         return z3.Select(z3.Select(self.heap["l_item"], a), i)
 
     def new_list(self, items=None, ln=None):
-        a = self.new_ref()
+        a = self.new_ref(kind="list")
         if items is not None:
             self.heap["l_item"] = z3.Store(self.heap["l_item"], a, items)
         self.heap["l_len"] = z3.Store(self.heap["l_len"], a, ln if ln is not None else z3.IntVal(0))
@@ -171,7 +178,7 @@ class State:
         return z3.Select(z3.Select(self.heap["t_item"], a), i)
 
     def new_tuple(self, items, ln):
-        a = self.new_ref()
+        a = self.new_ref(kind="tuple")
         self.heap["t_item"] = z3.Store(self.heap["t_item"], a, items)
         self.heap["t_len"] = z3.Store(self.heap["t_len"], a, ln)
         return a
@@ -184,7 +191,7 @@ class State:
         return z3.Select(self.heap["s_len"], a)
 
     def new_set(self):
-        a = self.new_ref()
+        a = self.new_ref(kind="set")
         self.heap["s_has"] = z3.Store(self.heap["s_has"], a, z3.K(Val, z3.BoolVal(False)))
         self.heap["s_len"] = z3.Store(self.heap["s_len"], a, z3.IntVal(0))
         return a
